@@ -844,6 +844,14 @@ def run(ctx):
     ctx.rule("R03.17", "keyword arguments bind to the called function's parameters, whatever their names: the interpreter's own forwarding functions take their parameters "
              "positional-only, so a script keyword called func, func_name, ast_ctx or self reaches the callee", floor=4)
     kwargs_namespace_rule(ctx, program, "R03.17", only=("eval.py::",))
+    ctx.rule("R03.18", "calls: positional, starred, keyword and ** arguments are evaluated once each in order and reach the callee; a keyword given twice (explicitly and "
+             "through a ** mapping, in either order) is a TypeError, a ** operand that is no mapping too - the interpreter's call handler against the reference semantics", floor=10)
+    from .c01 import EXPR_SHAPES
+    from ..hcompare import compare_shape
+    cpol = HandlerPolicy(program)
+    for src in EXPR_SHAPES:
+        if src.startswith("a0(") and src.endswith(")"):
+            compare_shape(ctx, program, cpol, "R03.18", src, "eval")
     _init_wrap_rule(ctx, program)
     _class_namespace_rule(ctx, program)
     _captured_cell_rule(ctx, program)
